@@ -291,10 +291,22 @@ def run(ctx):
     ctx.sample({'cmd': cases[0].shell(), 'log': cases[0].files[b'log.yaml'].decode('utf-8', 'replace')[:300]})
     # the real binary under the three zones
     binary = ctx.real()
-    sub = [c for c in cases if 'pair' in c.meta][:: (40 if ctx.tier == 'quick' else 25)]
+    paired = [c for c in cases if 'pair' in c.meta]
+    sub = paired[:: (40 if ctx.tier == 'quick' else 25)]
+    # and two of every shape of period (command, which bounds are given, where they are given): the Command() wrappers run only
+    # here (round t: a wrapper that closes an open period of `bal -b` at --today)
+    shapes, extra_sub = {}, []
+    for c in paired:
+        shapes.setdefault((str(c.meta.get('kind')), bool(c.meta.get('b')), bool(c.meta.get('e')), str(c.meta.get('pos'))), []).append(c)
+    for cs in shapes.values():
+        for c in (cs[0], cs[-1]):
+            if all(c is not x for x in sub) and len(extra_sub) < (400 if ctx.tier == 'quick' else 1200):
+                extra_sub.append(c)
+    ctx.count('real-binary:period shapes', len(shapes))
     n = 0
-    for c in sub:
-        for tz in TZS:
+    for c in sub + extra_sub:
+        # (the cases added per shape run under their own zone only)
+        for tz in (TZS if any(c is x for x in sub) else [c.tz]):
             def real(x):
                 from ..appcase import ENV_NAMES
                 files = dict(x.files)
@@ -306,7 +318,7 @@ def run(ctx):
             n += 2
             if (rc, core.canon_out(out)) != (rc2, core.canon_out(out2)):
                 ctx.problem('oracle', 'real binary, TZ=%s: `%s` with its period differs from the log with the other days deleted' % (tz, c.meta['kind']), c,
-                            {'with_period': out.decode('utf-8', 'replace')[:800], 'days_deleted': out2.decode('utf-8', 'replace')[:800], 'stderr': err.decode('utf-8', 'replace')[:300]}, signature='period-selection')
+                            {'with_period': out.decode('utf-8', 'replace')[:800], 'days_deleted': out2.decode('utf-8', 'replace')[:800], 'stderr': err.decode('utf-8', 'replace')[:300]}, signature='real-binary:period-selection')
             i = impl[c.id]
             if i.get('status') == 'ok' and core.canon_out(out) != out_of(i):
                 ctx.problem('corr', 'real binary and in-process driver disagree for `%s` under TZ=%s' % (c.meta['kind'], tz), c, {'real': out.decode('utf-8', 'replace')[:500], 'driver': out_of(i).decode('utf-8', 'replace')[:500]})
